@@ -169,6 +169,10 @@ async fn settle() {
 enum Ev {
     /// the handle() future is dropped and handle() is called again (first connection)
     HR,
+    /// the peer answers the request with that hop-by-hop id with a message of ANOTHER command code
+    PC(u32),
+    /// that many milliseconds of REAL time pass (for whatever measures with the system clock)
+    TR(u64),
     R(u32),
     RX(u32),
     PL(u32, usize),
@@ -250,6 +254,8 @@ pub fn run(st: &State, t: &mut Toks) -> PResult<String> {
         evs.push(match t.next()? {
             "R" => Ev::R(t.u32()?),
             "RX" => Ev::RX(t.u32()?),
+            "PC" => Ev::PC(t.u32()?),
+            "TR" => Ev::TR(t.u64()?),
             "HR" => Ev::HR,
             "PL" => {
                 let h = t.u32()?;
@@ -570,6 +576,20 @@ pub fn run(st: &State, t: &mut Toks) -> PResult<String> {
                                 Some(v) => v.extend_from_slice(&b),
                                 None => conns[sel].0.push(&b),
                             },
+                        }
+                    }
+                    Ev::TR(ms) => std::thread::sleep(std::time::Duration::from_millis(ms)),
+                    Ev::PC(h) => {
+                        let (cmd, app) = cmd_app_of(h);
+                        let other = if cmd == CommandCode::CreditControl { CommandCode::Accounting } else { CommandCode::CreditControl };
+                        let mut ans = DiameterMessage::new(other, app, 0, h, emitted[sel], Arc::clone(&dict));
+                        ans.add_avp(268, None, M, Unsigned32::new(2001).into());
+                        emitted[sel] += 1;
+                        let mut b = Vec::new();
+                        ans.encode_to(&mut b).expect("encode answer");
+                        match &mut held {
+                            Some(v) => v.extend_from_slice(&b),
+                            None => conns[sel].0.push(&b),
                         }
                     }
                     Ev::PT(h, cut) => {
